@@ -137,7 +137,8 @@ var zone = time.FixedZone("UTC+7", 7*3600)
 
 func timeOf(form, inst string) time.Time {
 	k := map[string]int{"t0": 0, "t1": 1, "t2": 2}[inst]
-	t := timeBase.Add(time.Duration(k) * time.Hour)
+	// t1 lies 400 ms after t0 (the same wall-clock second unless a second boundary falls between them), t2 an hour later
+	t := timeBase.Truncate(time.Second).Add(100*time.Millisecond + []time.Duration{0, 400 * time.Millisecond, time.Hour}[k])
 	switch form {
 	case "utc":
 		return t.Round(0).UTC()
